@@ -127,11 +127,22 @@ def composite_shared(incl: bool, has: bool, v0: int, v1: int, v2: int) -> bool:
 
 
 class Churn(System):
-    """priority-0 system that changes the population according to a plan {timestep offset: (+1 | -1)}"""
+    """priority-0 system that changes the population according to a plan {timestep offset: (+1 | -1)}; optionally it
+    first replaces the model's environment by a fresh one (carrying the residents over) at step `swap_at`"""
+    swap_at = None
 
     def execute(self):
         m = self.model
         k = m.k                      # concrete step counter kept by the harness
+        if Churn.swap_at is not None and k == Churn.swap_at:
+            from ECAgent.Core import Environment
+            old = m.environment
+            new = Environment(m, id="NEW")
+            for aid in list(old.agents):
+                ag = old.agents[aid]
+                old.remove_agent(aid)
+                new.add_agent(ag)
+            m.set_environment(new)
         if 0 <= k < len(m.plan):
             if m.plan[k] > 0:
                 a = Agent("n%d" % k, m)
@@ -147,6 +158,7 @@ def agent_collect_window(start: int, end: int, t0: int, d0: int, d1: int, d2: in
     """
     hx.begin()
     f, steps = hx.P['f'], hx.P['steps']
+    Churn.swap_at = hx.P.get('swap_at')
     m = M()
     m.per = t0
     m.plan = [d0, d1, d2, d3][:steps]
@@ -180,6 +192,17 @@ def agent_collect_window(start: int, end: int, t0: int, d0: int, d1: int, d2: in
 
 
 class FC(Col.FileCollector):
+    custom_writer = False
+
+    def write_records(self):
+        # the documented extension point: a subclass may write its records in its own way, without calling super()
+        if not FC.custom_writer:
+            return Col.FileCollector.write_records(self)
+        f = Col.open(self.filename, self.filemode)
+        for r in self.records:
+            f.write(r)
+        f.close()
+
     def collect(self):
         m = self.model
         k = m.k                      # concrete step counter kept by the harness
@@ -199,6 +222,7 @@ def file_conservation(wc: int, c0: int, c1: int, c2: int, c3: int, c4: int, c5: 
     steps = hx.P['steps']
     fs = FakeFS()
     Col.open = fs.open
+    FC.custom_writer = bool(hx.P.get('custom_writer'))
     try:
         m = M()
         m.per = [c0, c1, c2, c3, c4, c5, c6]
@@ -345,9 +369,11 @@ def obligations(tier):
           encoded=(Col.FileCollector.execute, Col.FileCollector.write_records),
           bounds={"write_count": "0..2", "steps": 6, "failing open": "any of the first four"}),
         X("agent_collect_window", agent_collect_window,
-          parts=[{"f": f, "steps": s} for f, s in (((1, 3), (2, 3)) if tier == "quick" else ((1, 3), (2, 3), (2, 4), (3, 4)))],
+          parts=[{"f": f, "steps": s} for f, s in (((1, 3), (2, 3)) if tier == "quick" else ((1, 3), (2, 3), (2, 4), (3, 4)))] +
+          [{"f": 1, "steps": 3, "swap_at": 1}],
           labels=("some_scheduled",), timeout=1200, encoded=(Col.AgentCollector.collect, Col.Collector.__init__)),
-        X("file_conservation", file_conservation, parts=[{"steps": steps, "c01": [a, b]} for a in range(3) for b in range(3)], labels=("two_flushes", "never_flushed"),
+        X("file_conservation", file_conservation, parts=[{"steps": steps, "c01": [a, b]} for a in range(3) for b in range(3)] + [{"steps": 4, "c01": [1, 2], "custom_writer": True}],
+          labels=("two_flushes", "never_flushed"),
           timeout=1200, encoded=(Col.FileCollector.execute, Col.FileCollector.write_records, Col.FileCollector.__init__)),
         X("file_window", file_window, parts=[{"f": 2, "steps": 4 if tier == "quick" else 6}, {"f": 3, "steps": 4 if tier == "quick" else 7}],
           labels=("flush_on_collection_count",), timeout=1200, encoded=(Col.FileCollector.execute,)),
